@@ -445,6 +445,8 @@ theorem validPilLtoValidityWindow_tz (cfg : Cfg) (L : Libc) (w0 : World) (pil : 
       · cases h2
     split
     · exact Or.inl hu
+    split
+    · exact Or.inl hu
     · split
       · split <;> exact Or.inl hu
       · exact Or.inl hu
